@@ -240,7 +240,7 @@ func TestC13Snapshot(t *testing.T) {
 		restore := func(prefix []byte) (map[uint32]MRow, error, string) {
 			rc := newCollectionLive(sch, mc.M.ColLive, column.Options{})
 			defer rc.Close()
-			err, bad := guarded(func() error { return rc.Restore(bytes.NewReader(prefix)) })
+			err, bad := guarded(func() error { return rc.Restore(deliver(prefix, len(prefix)>>2)) })
 			if bad != "" || err != nil {
 				return nil, err, bad
 			}
@@ -669,7 +669,7 @@ func c13Big(t *rapid.T, n, width int) {
 	restoredNil, tailCuts := 0, 0
 	for cut := range cuts {
 		d := mk()
-		rerr, bad := guarded(func() error { return d.Restore(bytes.NewReader(data[:cut])) })
+		rerr, bad := guarded(func() error { return d.Restore(deliver(data[:cut], len(data[:cut])>>2)) })
 		if bad != "" {
 			d.Close()
 			t.Fatalf("C13 violated: Restore of the first %d of %d bytes (state/log junction at %d): %s", cut, len(data), junction, bad)
